@@ -13,6 +13,7 @@ import (
 	"fmt"
 	"math/rand"
 	"net/netip"
+	"strings"
 	"testing"
 
 	"github.com/megaease/easegress/pkg/logger"
@@ -265,8 +266,21 @@ func TestVerifC05Trace(t *testing.T) {
 			if a.Is6() {
 				fam = 6
 			}
-			got := flt.Allow(a.String())
-			w.Raw(vx.M{"f": f, "a": vx.M{"fam": fam, "bits": c05Bits(a, a.BitLen()), "txt": a.String()}, "allow": got})
+			// the address as the client may spell it: plain, IPv4-mapped (::ffff:a.b.c.d is the IPv4
+			// host a.b.c.d), expanded or upper-case IPv6
+			txt := a.String()
+			switch r.Intn(8) {
+			case 0:
+				if a.Is4() {
+					txt = "::ffff:" + txt
+				} else {
+					txt = a.StringExpanded()
+				}
+			case 1:
+				txt = strings.ToUpper(txt)
+			}
+			got := flt.Allow(txt)
+			w.Raw(vx.M{"f": f, "a": vx.M{"fam": fam, "bits": c05Bits(a, a.BitLen()), "txt": txt}, "allow": got})
 		}
 	}
 }
